@@ -15,6 +15,9 @@ type Backend struct {
 	Port int
 	Host string // ip literal
 
+	// Greeting, if set (under mu), is written on every accepted connection at once
+	Greeting []byte
+
 	mu      sync.Mutex
 	cond    *sync.Cond
 	conns   []*BConn
@@ -60,6 +63,13 @@ func MustBackend(ip string) *Backend {
 	return b
 }
 
+// SetGreeting makes the backend write g on every connection right after accepting it.
+func (b *Backend) SetGreeting(g []byte) {
+	b.mu.Lock()
+	b.Greeting = g
+	b.mu.Unlock()
+}
+
 func (b *Backend) Addr() string { return net.JoinHostPort(b.Host, fmt.Sprint(b.Port)) }
 
 func (b *Backend) acceptLoop() {
@@ -76,8 +86,12 @@ func (b *Backend) acceptLoop() {
 			bc.marker = true
 		}
 		b.conns = append(b.conns, bc)
+		greet := b.Greeting
 		b.cond.Broadcast()
 		b.mu.Unlock()
+		if len(greet) > 0 {
+			c.Write(greet)
+		}
 		go bc.readLoop()
 	}
 }
